@@ -857,7 +857,13 @@ package grpctunnel
 //@   requires stream != nil && isClosing != nil && opts != nil
 //@   at call serve#1
 //@     assert[C03,C08] @fresh arg0.lastSeen == -1 && arg0.streams != nil && arg0.stream == stream && arg0.isClosing == isClosing && arg0.tunnelOpts == opts && arg0.clientAcceptsSettings == clientAcceptsSettings
+//@     assert[C08]     @services arg0.services == handlers
+//@     assert[C10,C11] @modes arg0.isClosing == isClosing && arg0.tunnelOpts == opts && arg0.clientAcceptsSettings == clientAcceptsSettings
 //@     assert[C17]     @tunnelmd arg1 == tunnelMetadata
+//@   ghost r error = nil
+//@   at aftercall serve#1
+//@     ghost r = result
+//@   ensures[C04,C09] @reported result == r
 //@   locks s.mu
 //@   assigns *
 
@@ -1635,8 +1641,16 @@ package grpctunnel
 //@   ghost added ghostint = 0
 //@   at aftercall newReverseChannel#1
 //@     ghost added = 0
+//@   ghost k any = nil
+//@   at call newReverseChannel#1
+//@     assert[C12,C14] @teardown bound(arg2, "unregister", s) && arg0 == stream
+//@   at call affinityKey#1
+//@     assert[C12] @keyof id(arg0) == ch
+//@   at aftercall affinityKey#1
+//@     ghost k = result
 //@   at call add#1
 //@     assert[C12] @global arg0 == s.reverse && arg1 == ch && arg2 == key
+//@     assert[C12] @userkey arg2 == k
 //@   at call add#2
 //@     assert[C12] @perkey arg0 == rc && arg1 == ch && arg2 == key && count("call:add") == 1
 //@   at call reverseChannelsForKey#1
@@ -1671,6 +1685,9 @@ package grpctunnel
 //@     assert[C17] @tunnelmd arg1 == md
 //@     assert[C11] @flag arg2 == (len(vals) > 0 && vals[0] == "on")
 //@     assert[C10] @stopflag arg5 != nil && arg3 != nil
+//@     assert[C10] @ownflag  bound(arg5, "Load", s.stopping)
+//@     assert[C08] @handlers arg4 == s.handlers
+//@     assert[C15] @wrapped  arg0 is *threadSafeOpenTunnelServer
 //@     assert[C11] @advertised count("carrier.SendHeader") == 1
 //@   assigns *
 
@@ -1761,7 +1778,12 @@ package grpctunnel
 //@     assert[C10] @registered added == nil && count("wg.Done") == 0
 //@     assert[C17] @tunnelmd arg1 == reqMD
 //@     assert[C11] @flag arg2 == (len(vals) > 0 && vals[0] == "on")
-//@     assert[C10] @closingfn arg5 != nil
+//@     assert[C10] @closingfn arg5 != nil && bound(arg5, "isClosing", s)
+//@     assert[C08] @handlers arg4 == s.handlers
+//@     assert[C15] @wrapped  arg0 is *threadSafeOpenReverseTunnelClient
+//@   at call addInstance#1
+//@     assert[C04,C10] @instance arg0 == s && arg1 is *threadSafeOpenReverseTunnelClient
+//@   ensures[C04]     @cause    count("call:serveTunnel") == 1 && result1 != nil ==> result1 == serveErr
 //@   ensures[C10] @done     added == nil && count("call:serveTunnel") == 1 ==> count("wg.Done") == 1
 //@   ensures[C10] @notadded count("call:serveTunnel") == 0 ==> count("wg.Done") == 0 && !started
 //@   locks s.mu
